@@ -26,7 +26,7 @@ ASSUMPTIONS = ['reference constants: base tx 10 bytes, P2PKH spend 148 bytes wit
                'branch_and_bound / closest_match chosen on their own are partial selectors: refusal judged by that rule\'s own feasibility']
 REQUIRED_HITS = ['O6.refusal_after_reservation', 'O6.injected_sign_failure', 'O1.checked', 'O2.checked', 'O3.checked', 'O4.change_checked', 'O4.nochange_checked', 'O5.refusal_justified',
                  'O5.success_when_sufficient', 'O6.checked', 'branch.retry_loop', 'req.pay', 'req.claim_create', 'req.claim_update',
-                 'req.support', 'req.purchase', 'req.spend_all', 'req.small_deficit', 'strategy.sqlite', 'strategy.random_draw',
+                 'req.support', 'req.purchase', 'req.spend_all', 'req.small_deficit', 'req.exact_cover', 'state.change_chain_exhausted_before_build', 'strategy.sqlite', 'strategy.random_draw',
                  'strategy.prefer_confirmed', 'strategy.only_confirmed', 'strategy.branch_and_bound', 'strategy.closest_match',
                  'strategy.standard', 'uclass.round_under_sqlite', 'uclass.liquidation', 'uclass.whale', 'after.broadcast', 'after.keep_reserved']
 DUST = 1000
@@ -144,7 +144,7 @@ async def _run_wallet(rec, case):
             allsum = sum(t['amount'] - spend_fee for t in elig.values())
             # ---------------- choose a request
             kind = r.choice(['pay', 'pay', 'pay', 'pay_multi', 'claim_create', 'claim_update', 'support', 'support_data',
-                             'purchase', 'spend_all', 'abandon', 'small_deficit', 'small_deficit'])
+                             'purchase', 'spend_all', 'abandon', 'small_deficit', 'small_deficit', 'exact_cover'])
             if uclass == 'liquidation' and r.random() < 0.8:
                 kind = 'spend_all'
             frac = r.choice([1e-6, 0.01, 0.3, 0.5, 0.9, 0.99, 0.999, 1.0, 1.001, 1.5, 'exact', 'exact'])
@@ -226,6 +226,20 @@ async def _run_wallet(rec, case):
                                 chosen = [r.choice(small)]
                         pre_inputs = [await _txo(fx, t) for t in chosen]
                     call = lambda: Transaction.create([Input.spend(t) for t in pre_inputs], [], funding, change_account)
+                elif kind == 'exact_cover':
+                    # a sweep: EVERY spendable coin is handed in and the output is what is left after the fee, to the dewie (or with a
+                    # surplus too small for a change output).  Nothing else is left to select, and nothing else is needed
+                    # (seeded break C03-G entered the funding branch for a deficit of exactly 0 and refused)
+                    cand = sorted(elig)
+                    if not 1 <= len(cand) <= 10:
+                        continue
+                    d = r.choice([0, 0, 0, 1, 7])
+                    a = sum(elig[t]['amount'] - spend_fee for t in cand) - 44 * rate - d
+                    if a <= DUST:
+                        continue
+                    pre_inputs = [await _txo(fx, t) for t in cand]
+                    outputs = [Output.pay_pubkey_hash(a, r.randbytes(20))]
+                    call = lambda: Transaction.create([Input.spend(t) for t in pre_inputs], outputs, funding, change_account)
                 elif kind == 'small_deficit':
                     cand = [t for t in sorted(elig) if elig[t]['amount'] > spend_fee + coc + 10]
                     if len(cand) < 2:
@@ -262,6 +276,19 @@ async def _run_wallet(rec, case):
                 await ledger.reserve_outputs(plain_pre)
                 for t in plain_pre:
                     pre[t.id]['is_reserved'] = True
+            if kind in ('pay', 'pay_multi', 'purchase', 'support') and r.random() < 0.07:
+                # address state carried over from earlier activity: every address of the change chain already has its full history and
+                # the newest receiving address is used too, and the gap has not been topped up yet.  The change of this build must
+                # still go to a (new) address of the change chain (seeded break C03-H took the first address the ACCOUNT-level top-up
+                # returned, which is a receiving one)
+                rows = await fx.sql("select address, chain, n from account_address where account=? order by chain, n", (change_account.id,))
+                for row in rows:
+                    if row['chain'] == 1:
+                        await ledger.db.set_address_history(row['address'], ('%064x:5:' % r.getrandbits(255)) * 2)
+                recv = [row for row in rows if row['chain'] == 0]
+                if recv:
+                    await ledger.db.set_address_history(recv[-1]['address'], '%064x:5:' % r.getrandbits(255))
+                rec.hit('state.change_chain_exhausted_before_build')
             # ---------------- the call under test
             reservations = [0]
             real_reserve = ledger.db.reserve_outputs
